@@ -259,6 +259,27 @@ def ev(v, val, hooks=None):
                 return [fn(x) for x in ev(a[2], val, hooks)]
             except (ValueError, TypeError) as e:
                 raise Raised(type(e).__name__)
+        if op == 'fmtval':
+            x = ev(a[0], val, hooks)
+            spec = ev(a[2], val, hooks)
+            try:
+                if a[1] == 's':
+                    x = str(x)
+                elif a[1] == 'r':
+                    x = repr(x)
+                elif a[1] == 'a':
+                    x = ascii(x)
+                return format(x, spec)
+            except (ValueError, TypeError) as e:
+                raise Raised(type(e).__name__)
+        if op == 'fstr':
+            out = []
+            for x in a:
+                r = ev(x, val, hooks)
+                out.append(r if isinstance(r, str) and not (
+                    isinstance(x, T) and x.op not in ('fmtval',) and False)
+                    else format(r, ''))
+            return ''.join(out)
         if op == 'list':
             return [ev(x, val, hooks) for x in a]
         if op == 'set':
